@@ -53,6 +53,17 @@ def run_int(W, cfg):
     if unit == 'm' and m == 'trapz':
         nm1, _ = _spec(W, R, 's1', GR[cfg['grid']], 'v')
         W.ob('integral in metres = 1e-9 x integral of the same samples in nanometres', K * s1.integrate(method=m), nm1.integrate(method=m))
+    if unit == 'nm' and m == 'trapz':
+        # resampling onto the same physical wavelengths written in another unit keeps every sample (and records the unit)
+        rs, _ = _spec(W, R, 's1', grid, 'v')
+        rs.resample(W.array([W.const(Fraction(g, 1000)) for g in grid]), waveunit='um')
+        W.ob_true('resample(..., waveunit=um): unit recorded', rs.waveunit == 'um')
+        W.ob('resample(..., waveunit=um): grid as given', rs.wave, W.array([W.const(Fraction(g, 1000)) for g in grid]))
+        W.ob('resample(..., waveunit=um) onto the same physical wavelengths: values kept', rs.value, W.array(list(v1)))
+        mid = [Fraction(grid[k] + grid[k + 1], 2000) for k in range(n - 1)]
+        rs2, _ = _spec(W, R, 's1', grid, 'v')
+        rs2.resample(W.array([W.const(x) for x in mid]), waveunit='um')
+        W.ob('resample(..., waveunit=um) onto the mid-points: linear interpolation', rs2.value, W.array([(v1[k] + v1[k + 1]) / 2 for k in range(n - 1)]))
     if m == 'trapz':
         W.ob('trapezoid rule (exact for piecewise-linear data)', K * s1.integrate(method=m), K * _trap(grid, v1, list(range(n))))
         for k in range(1, n - 1):
